@@ -721,10 +721,16 @@ func seqParent(tier string, deadline time.Time, withOst bool) (*seqResult, error
 		n = 16
 	}
 
+	nOst := 0
+
 	if *seqNWorkers > 0 {
 		n = *seqNWorkers
+		nOst = n
 	} else if ostBin != "" && n > 2 {
-		n /= 2 // the other half of the cores runs the ostype binary at the same time
+		// the ostype binary runs at the same time and has about 1.6 times the
+		// work (it repeats the Linux-typed part and adds the Windows-typed one)
+		nOst = n - n*3/8
+		n = n * 3 / 8
 	}
 
 	// the avfs_setostype binary, concurrently
@@ -742,7 +748,7 @@ func seqParent(tier string, deadline time.Time, withOst bool) (*seqResult, error
 		}
 
 		of := filepath.Join(dir, "ost.json")
-		cmd := exec.Command(ostBin, "-id", "C07", "-tier", tier, "-seqonly", "-seqout", of, "-seqworkers", fmt.Sprint(n))
+		cmd := exec.Command(ostBin, "-id", "C07", "-tier", tier, "-seqonly", "-seqout", of, "-seqworkers", fmt.Sprint(nOst))
 		cmd.Env = append(os.Environ(), "VERIF_SEQ_DEADLINE_UNIX="+strconv.FormatInt(deadline.Unix(), 10))
 
 		var eb strings.Builder
